@@ -3,7 +3,9 @@
 (* C12, recursive named fragments.  Nodes are fragments 1..N on an object  *)
 (* type; Fi may spread Fj under a nullable object field ("field": the      *)
 (* generated struct of Fi then holds Fj's struct by value inside Option),  *)
-(* under a list field ("list": held inside a Vec), or not at all.          *)
+(* under a list field ("list": held inside a Vec), inside an inline         *)
+(* fragment of an interface-typed field ("inline": by value inside the     *)
+(* variant enum), or not at all.                                           *)
 (* The generator boxes a spread iff the SPREAD FRAGMENT "is recursive".    *)
 (*   Transitive = FALSE: recursive = the fragment's own selection contains *)
 (*                       a spread of itself (the pinned implementation)    *)
@@ -14,10 +16,12 @@
 (***************************************************************************)
 EXTENDS Naturals, FiniteSets, Json, TLC
 
-CONSTANTS N, Transitive
+CONSTANTS N, Transitive, WithInline
 
 Nodes == 1..N
-Kinds == {"none", "field", "list"}
+\* "inline": Fi spreads Fj inside an inline fragment of a nullable interface-typed field
+\*   n: node { __typename ... on Person { ...Fj } }   -- by value through the variant enum
+Kinds == {"none", "field", "list"} \cup (IF WithInline THEN {"inline"} ELSE {})
 
 VARIABLE g
 Init == g \in [Nodes \X Nodes -> Kinds]
@@ -32,7 +36,7 @@ Reach(S) == LET nxt == S \cup {j \in Nodes : \E i \in S : Spreads(i, j)} IN IF n
 Recursive(x) == IF Transitive THEN x \in Reach({j \in Nodes : Spreads(x, j)}) ELSE Spreads(x, x)
 
 Boxed(i, j) == Spreads(i, j) /\ Recursive(j)
-ByValue(i, j) == g[<<i, j>>] = "field" /\ ~Boxed(i, j)
+ByValue(i, j) == g[<<i, j>>] \in {"field", "inline"} /\ ~Boxed(i, j)
 
 RECURSIVE ReachBV(_)
 ReachBV(S) == LET nxt == S \cup {j \in Nodes : \E i \in S : ByValue(i, j)} IN IF nxt = S THEN S ELSE ReachBV(nxt)
